@@ -206,7 +206,10 @@ class RxWorld:
         n_ops = min(50 if big else 30, 3 + int(rng.expovariate(1 / (14.0 if big else 9.0))))
         ops = []
         for _ in range(n_ops):
-            k = weighted(rng, [('set', 5), ('bad', 1.5), ('read', 7), ('watch', 1), ('build', 1.5 if n_lazy else 0)])
+            k = weighted(rng, [('set', 5), ('bad', 1.5), ('read', 7), ('watch', 1), ('build', 1.5 if n_lazy else 0), ('mut', 0.8)])
+            if k == 'mut':
+                ops.append({'op': 'mut', 'i': rng.randrange(n_in), 'v': rng.randint(1, 9), 'batch': rng.random() < 0.5})
+                continue
             if k == 'build':
                 ops.append({'op': 'build'})
                 continue
@@ -711,6 +714,25 @@ class RxWorld:
                                 viol('C09.watch', step, f"after input {i} = {op['v']!r} the value of watched node {j} is {after[j][1]!r} but the callback last "
                                                         f"received {seen[-1] if seen else '<nothing>'!r}")
                                 break
+            elif k == 'mut':
+                # an input (a Parameter holding a list) is mutated in place and the change announced with param.trigger, possibly
+                # from inside a batch (where the trigger is delivered like an ordinary event for an unchanged object)
+                i = op['i'] % len(inputs)
+                if inputs[i]['k'] not in ('param', 'bind') or not isinstance(vals[i], list):
+                    continue
+                vals[i].append(op['v'])
+                try:
+                    if op.get('batch'):
+                        with param.parameterized.batch_call_watchers(h):
+                            h.param.trigger(f"p{i}")
+                    else:
+                        h.param.trigger(f"p{i}")
+                except Exception as ex:      # noqa
+                    if not any(plain(j)[0] == 'exc' for j in range(len(built))):
+                        viol('C09.watch', step, f"announcing the in-place mutation of input {i} raised {type(ex).__name__}")
+                        break
+                out.log.append(f"{step} mutate input{i} in place -> {vals[i]!r} (trigger{' inside a batch' if op.get('batch') else ''})")
+                out.stats['probe.in_place_mutation_announced_by_trigger'] += 1
             elif k == 'build':
                 # a new expression derived, mid-history, from expressions that may have been read and then invalidated
                 j = len(built)
